@@ -27,7 +27,6 @@ import (
 	"strconv"
 	"strings"
 	"testing"
-	"testing/synctest"
 
 	"github.com/bfenetworks/bfe/bfe_basic"
 	"github.com/bfenetworks/bfe/bfe_bufio"
@@ -43,7 +42,7 @@ type c27case struct {
 	Method   string // GET HEAD POST
 	Ver      string // "1.1" "1.1c" (Connection: close) "1.0" "1.0k" (Connection: keep-alive)
 	Status   int
-	Frame    string // backend: none cl clshort cllong chunked chunkedcut clte ; module: nocl cl clshort cllong redirect
+	Frame    string // backend: none cl clshort cllong chunked chunkedcut clte ; module: nocl cl clstatic clshort cllong redirect
 	Size     int    // body octets the backend/module has
 	BConn    string // Connection header of the backend response: "" close keep-alive
 	RdChunk  int    // octets per Read of the backend wire (0 = unlimited)
@@ -184,6 +183,10 @@ func c27moduleFilter(req *bfe_basic.Request) (int, *bfe_http.Response) {
 		req.Redirect.Header = bfe_http.Header{"X-E2e": {"v1"}}
 		return bfe_module.BfeHandlerRedirect, nil
 	}
+	if c.Frame == "bare" {
+		// literally what mod_secure_link.validateHandler returns on a failed check
+		return bfe_module.BfeHandlerResponse, &bfe_http.Response{StatusCode: c.Status}
+	}
 	res := bfe_basic.CreateInternalResp(req, c.Status) // sets Server: bfe, Body = EofReader
 	res.Header.Set("X-E2e", "v1")
 	res.Header.Add("Set-Cookie", "a=1")
@@ -195,7 +198,7 @@ func c27moduleFilter(req *bfe_basic.Request) (int, *bfe_http.Response) {
 	}
 	body := c27body(c.Size)
 	switch c.Frame {
-	case "cl":
+	case "cl", "clstatic":
 		res.Header.Set("Content-Length", strconv.Itoa(len(body)))
 	case "cllong":
 		res.Header.Set("Content-Length", strconv.Itoa(len(body)+3))
@@ -206,8 +209,9 @@ func c27moduleFilter(req *bfe_basic.Request) (int, *bfe_http.Response) {
 		}
 		res.Header.Set("Content-Length", strconv.Itoa(n))
 	}
-	// like mod_static: no body object for HEAD
-	if req.HttpRequest.Method != "HEAD" && len(body) > 0 {
+	// mod_errors / mod_doh attach Content-Length and body whatever the request method is;
+	// mod_static ("clstatic") sets Content-Length but attaches no body object for HEAD
+	if len(body) > 0 && !(c.Frame == "clstatic" && req.HttpRequest.Method == "HEAD") {
 		res.Body = io.NopCloser(bytes.NewReader(body))
 	}
 	return bfe_module.BfeHandlerResponse, res
@@ -217,7 +221,7 @@ func c27moduleExpect(c c27case) c27expect {
 	body := c27body(c.Size)
 	exp := c27expect{status: c.Status, body: body, complete: true, declCL: -1}
 	switch c.Frame {
-	case "cl":
+	case "cl", "clstatic":
 		exp.declCL = len(body)
 	case "cllong":
 		exp.declCL, exp.complete = len(body)+3, false
@@ -493,11 +497,6 @@ func c27run(t *testing.T, srv *BfeServer, c c27case) c27obs {
 	pc := srv.serverStatus.ProxyState.PanicClientConnServe
 	p0 := pc.Get()
 	h1run(t, srv, answers, func(e *h1env) {
-		// srv.connWaitGroup is shared by all executions; a WaitGroup stays associated with the
-		// bubble of its first Add unless a waiter is present when it drops to zero (go1.26 sync).
-		// Park a waiter for the lifetime of this bubble's conn.serve so the group is released.
-		go srv.connWaitGroup.Wait()
-		synctest.Wait()
 		req := c27request(c)
 		switch c.Delivery {
 		case "split":
@@ -574,6 +573,9 @@ func c27judge(c c27case, exp c27expect, o c27obs) (sig, detail, outcome string) 
 		return strconv.Quote(string(b))
 	}
 	if len(o.out1) == 0 {
+		if c.Frame == "bare" {
+			cls = "module-response-without-body-object"
+		}
 		return "no-response:" + cls, fmt.Sprintf("nothing written; closed=%v panics=%d", o.closed1, o.panics), "no-response"
 	}
 	m := c27parse(o.out1, c.Method, http10)
@@ -587,7 +589,9 @@ func c27judge(c c27case, exp c27expect, o c27obs) (sig, detail, outcome string) 
 		return "transfer-encoding-to-http10-client:" + cls, "client got " + show(o.out1), "bad"
 	}
 	// end-to-end headers
-	if c.Frame != "redirect" {
+	if c.Frame == "bare" {
+		// no headers to compare
+	} else if c.Frame != "redirect" {
 		want := map[string][]string{}
 		for _, h := range c27e2e {
 			want[h[0]] = append(want[h[0]], h[1])
@@ -725,24 +729,29 @@ func TestVerifC27(t *testing.T) {
 	vers := []string{"1.1", "1.1c", "1.0", "1.0k"}
 	statuses := []int{200, 204, 304, 404, 103}
 	sizes := []int{0, 5, 5000}
-	rdchunks := []int{0, 1}
-	cts := []bool{true}
-	deliveries := []string{"whole"}
+	// secondary dimensions are varied one at a time around (unlimited reads, Content-Type sent,
+	// request delivered whole): octets per backend Read, Content-Type, request delivery
+	type variant struct {
+		rd int
+		ct bool
+		dl string
+	}
+	variants := []variant{{0, true, "whole"}, {1, true, "whole"}}
 	if th {
 		methods = append(methods, "POST")
 		statuses = append(statuses, 500, 101, 299)
 		sizes = []int{0, 1, 2, 5, 2047, 2048, 2049, 4096, 4097, 5000, 40000}
-		rdchunks = []int{0, 1, 1000}
-		cts = []bool{true, false}
-		deliveries = []string{"whole", "split", "stall"}
+		variants = append(variants, variant{1000, true, "whole"}, variant{0, false, "whole"},
+			variant{0, true, "split"}, variant{0, true, "stall"}, variant{1, true, "stall"})
 	}
 	bframes := []string{"none", "cl", "cllong", "clshort", "chunked", "chunkedcut", "clte"}
 	bconns := []string{"", "close", "keep-alive"}
-	mframes := []string{"nocl", "cl", "cllong", "clshort"}
+	mframes := []string{"nocl", "cl", "clstatic", "cllong", "clshort"}
 	mstatuses := []int{200, 204, 304, 403}
-	r.Set("bounds", fmt.Sprintf("methods=%v versions=%v statuses=%v backend-framings=%v backend-Connection=%q sizes=%v read-chunkings=%v content-type=%v deliveries=%v flush-modes=[-1 0] module-statuses=%v module-framings=%v+redirect{301,302}",
-		methods, vers, statuses, bframes, bconns, sizes, rdchunks, cts, deliveries, mstatuses, mframes))
+	r.Set("bounds", fmt.Sprintf("methods=%v versions=%v statuses=%v backend-framings=%v backend-Connection=%q sizes=%v variants{octets-per-backend-read,content-type,request-delivery}=%v flush-modes=[-1 0] module-statuses=%v module-framings=%v+redirect{301,302}+bare-403(mod_secure_link)",
+		methods, vers, statuses, bframes, bconns, sizes, variants, mstatuses, mframes))
 
+	nSample := 0
 	exec := func(c c27case, exp c27expect) {
 		if !r.Case(c.id()) {
 			return
@@ -762,6 +771,9 @@ func TestVerifC27(t *testing.T) {
 		}
 		if sig != "" {
 			r.Violation(sig, c.id(), fmt.Sprintf("case %+v: %s", c, detail))
+		} else if nSample < 3 && c.Size == 5 && c.Status == 200 {
+			nSample++
+			r.Sample(map[string]interface{}{"case": c.id(), "request": c27request(c), "client_received": string(o.out1), "closed": o.closed1, "probe_received": string(o.out2), "outcome": outcome})
 		}
 	}
 
@@ -774,25 +786,21 @@ func TestVerifC27(t *testing.T) {
 				if !r.Mine(idx) {
 					continue
 				}
-				if stop || r.Expired("backend cases") {
-					stop = true
-					continue
-				}
 				for _, srv := range []string{"A", "B"} {
 					for _, frame := range bframes {
 						for _, size := range sizes {
+							if stop || r.Expired("backend cases") {
+								stop = true
+								continue
+							}
 							for _, bc := range bconns {
-								for _, rc := range rdchunks {
-									if rc == 1 && size > 5000 {
+								for _, v := range variants {
+									if v.rd == 1 && size > 5000 {
 										continue // 1 octet per read only up to 5000 octets
 									}
-									for _, ct := range cts {
-										for _, dl := range deliveries {
-											c := c27case{Srv: srv, Method: method, Ver: ver, Status: status, Frame: frame, Size: size, BConn: bc, RdChunk: rc, CT: ct, Delivery: dl}
-											_, exp := c27wire(c)
-											exec(c, exp)
-										}
-									}
+									c := c27case{Srv: srv, Method: method, Ver: ver, Status: status, Frame: frame, Size: size, BConn: bc, RdChunk: v.rd, CT: v.ct, Delivery: v.dl}
+									_, exp := c27wire(c)
+									exec(c, exp)
 								}
 							}
 						}
@@ -808,18 +816,29 @@ func TestVerifC27(t *testing.T) {
 				for _, frame := range mframes {
 					for _, size := range sizes {
 						if (status == 204 || status == 304) && size > 0 {
-							continue // modules do not attach bodies to 204/304 (mod_cors: 204 + EofReader)
+							continue // bfe's modules do not attach bodies to 204/304 (mod_cors: 204 + EofReader)
 						}
-						if size == 0 && (frame == "clshort") {
+						if size == 0 && frame == "clshort" {
 							continue // same as cl
 						}
-						for _, ct := range cts {
-							for _, dl := range deliveries {
-								c := c27case{Srv: "M", Method: method, Ver: ver, Status: status, Frame: frame, Size: size, CT: ct, Delivery: dl}
-								exec(c, c27moduleExpect(c))
+						for _, v := range variants {
+							if v.rd != 0 {
+								continue // no backend wire
 							}
+							c := c27case{Srv: "M", Method: method, Ver: ver, Status: status, Frame: frame, Size: size, CT: v.ct, Delivery: v.dl}
+							exec(c, c27moduleExpect(c))
 						}
 					}
+				}
+			}
+			idx++
+			if r.Mine(idx) {
+				for _, v := range variants {
+					if v.rd != 0 || !v.ct {
+						continue
+					}
+					c := c27case{Srv: "M", Method: method, Ver: ver, Status: 403, Frame: "bare", Delivery: v.dl}
+					exec(c, c27expect{status: 403, complete: true, declCL: -1})
 				}
 			}
 			for _, status := range []int{301, 302} {
@@ -827,8 +846,11 @@ func TestVerifC27(t *testing.T) {
 				if !r.Mine(idx) {
 					continue
 				}
-				for _, dl := range deliveries {
-					c := c27case{Srv: "M", Method: method, Ver: ver, Status: status, Frame: "redirect", Delivery: dl}
+				for _, v := range variants {
+					if v.rd != 0 || !v.ct {
+						continue
+					}
+					c := c27case{Srv: "M", Method: method, Ver: ver, Status: status, Frame: "redirect", Delivery: v.dl}
 					exec(c, c27expect{status: status, complete: true, declCL: -1})
 				}
 			}
